@@ -394,6 +394,10 @@ func run(r *Rng, tier string, n int) {
 			checkCopyRR(rr, emitted)
 		}
 	}
+	// values that hold POINTERS to option / parameter / private-RDATA values whose content is empty at copy time
+	// (a template that is filled in later): the pointed-to values must be fresh too, and a later write to one
+	// side must not show through the other
+	emptyContent(r)
 	// option and parameter types on their own (the table has one row per type)
 	opts := []dns.EDNS0{
 		&dns.EDNS0_SUBNET{Code: dns.EDNS0SUBNET, Family: 2, SourceNetmask: 64, Address: net.ParseIP("2001:db8::")},
@@ -467,6 +471,83 @@ func run(r *Rng, tier string, n int) {
 }
 
 // deepClone copies a value with everything it points to (independent of the library's own copy()).
+// c16Priv is the RDATA of a private-use type registered with dns.PrivateHandle.
+type c16Priv struct{ B []byte }
+
+func (d *c16Priv) String() string { return Hx(d.B) }
+func (d *c16Priv) Parse(s []string) error {
+	d.B = []byte(strings.Join(s, ""))
+	return nil
+}
+func (d *c16Priv) Pack(buf []byte) (int, error) {
+	if len(buf) < len(d.B) {
+		return 0, dns.ErrBuf
+	}
+	return copy(buf, d.B), nil
+}
+func (d *c16Priv) Unpack(buf []byte) (int, error) {
+	d.B = append([]byte(nil), buf...)
+	return len(buf), nil
+}
+func (d *c16Priv) Copy(dst dns.PrivateRdata) error {
+	dst.(*c16Priv).B = append([]byte(nil), d.B...)
+	return nil
+}
+func (d *c16Priv) Len() int { return len(d.B) }
+
+func emptyContent(r *Rng) {
+	const code = 65316
+	dns.PrivateHandle("VPRIVS", code, func() dns.PrivateRdata { return new(c16Priv) })
+	defer dns.PrivateHandleRemove(code)
+	mkPriv := func(n int) dns.RR {
+		rr := dns.TypeToRR[code]()
+		*rr.Header() = dns.RR_Header{Name: "p.example.", Rrtype: code, Class: dns.ClassINET, Ttl: 5}
+		rr.(*dns.PrivateRR).Data.(*c16Priv).B = make([]byte, n)
+		return rr
+	}
+	h := func(t uint16) dns.RR_Header {
+		return dns.RR_Header{Name: "e.example.", Rrtype: t, Class: dns.ClassINET, Ttl: 5}
+	}
+	vals := []dns.RR{
+		mkPriv(0), mkPriv(1), mkPriv(300),
+		&dns.OPT{Hdr: dns.RR_Header{Name: ".", Rrtype: dns.TypeOPT, Class: 1232}, Option: []dns.EDNS0{&dns.EDNS0_LOCAL{Code: 65001}, &dns.EDNS0_PADDING{}, &dns.EDNS0_DAU{}, &dns.EDNS0_NSID{}, &dns.EDNS0_SUBNET{Code: dns.EDNS0SUBNET}, &dns.EDNS0_COOKIE{}}},
+		&dns.SVCB{Hdr: h(dns.TypeSVCB), Priority: 1, Target: ".", Value: []dns.SVCBKeyValue{&dns.SVCBAlpn{}, &dns.SVCBIPv4Hint{}, &dns.SVCBIPv6Hint{}, &dns.SVCBECHConfig{}, &dns.SVCBMandatory{}, &dns.SVCBLocal{KeyCode: 65300}, &dns.SVCBDoHPath{}}},
+		&dns.HTTPS{SVCB: dns.SVCB{Hdr: h(dns.TypeHTTPS), Priority: 1, Target: ".", Value: []dns.SVCBKeyValue{&dns.SVCBNoDefaultAlpn{}, &dns.SVCBOhttp{}, &dns.SVCBPort{}}}},
+		&dns.APL{Hdr: h(dns.TypeAPL), Prefixes: []dns.APLPrefix{{}}},
+	}
+	check := func(what string, orig, cp dns.RR) {
+		st["empty_content_copies_checked"]++
+		var ma, mb []span
+		memory(reflect.ValueOf(orig), "", &ma)
+		memory(reflect.ValueOf(cp), "", &mb)
+		if w, ok := overlaps(ma, mb); ok {
+			Viol("C16/copy-shares-memory/empty-content/"+KindOf(orig), what+" of a record whose options / parameters / private RDATA are empty shares memory with it: "+w, map[string]string{"rr": Protect(func() string { return orig.String() })})
+		}
+	}
+	for _, v := range vals {
+		check("Copy", v, dns.Copy(v))
+		m := new(dns.Msg)
+		m.SetQuestion("e.example.", dns.TypeA)
+		m.Answer, m.Ns, m.Extra = []dns.RR{v}, []dns.RR{v}, []dns.RR{v}
+		mc := m.Copy()
+		check("Msg.Copy (answer)", v, mc.Answer[0])
+		check("Msg.Copy (authority)", v, mc.Ns[0])
+		check("Msg.Copy (additional)", v, mc.Extra[0])
+		var m2 dns.Msg
+		m.CopyTo(&m2)
+		check("Msg.CopyTo", v, m2.Extra[0])
+		// the template pattern for private RDATA: fill in one side afterwards
+		if p, ok := v.(*dns.PrivateRR); ok {
+			cp := dns.Copy(v).(*dns.PrivateRR)
+			before := p.String()
+			cp.Data.(*c16Priv).B = append(cp.Data.(*c16Priv).B, 0xEE, 0xEE)
+			if p.String() != before {
+				Viol("C16/copy-write-visible/PrivateRR", "RDATA filled in on the copy of a private record shows in the original", map[string]string{"before": before, "after": p.String()})
+			}
+		}
+	}
+}
+
 func deepClone(v reflect.Value) reflect.Value {
 	switch v.Kind() {
 	case reflect.Ptr:
